@@ -76,7 +76,7 @@ def np_dtype(fields):
 def build(ty, js):
     p = parse_type(ty) if isinstance(ty, str) else ty
     k = p[0]
-    if js is None and k != "None":
+    if js is None and k not in ("None", "Any"):
         return None
     if k in ("Int", "Nat"):
         return int(js)
@@ -91,7 +91,7 @@ def build(ty, js):
     if k == "Opt":
         return build(p[1], js)
     if k == "Any":
-        return None
+        return Anything()
     if k == "Seq":
         et = parse_type(p[1])[0]
         dt = {"Int": "i8", "Bool": "?"}.get(et, "f8")
@@ -111,11 +111,40 @@ def build(ty, js):
         for f, _ty in p[1]:
             a[f] = fnum(js["__row__"][f])
         return a[0]
+    if k == "Tbl":
+        rows = js["__tbl__"] if isinstance(js, dict) else []
+        return np.array([[fnum(x) for x in r] for r in rows],
+                        dtype="f8").reshape(len(rows), 3)
     if k == "Tuple":
         return tuple(build(t, v) for t, v in zip(p[1], js["__tuple__"]))
     if k == "Obj":
         return build_obj(p[1], js)
     raise ValueError(f"cannot build {ty}")
+
+
+class Anything:
+    """Stands for a value of declared type Any (never inspected by the
+    contracts): absorbs arithmetic, calls, attribute access."""
+
+    def _s(self, *a, **k):
+        return self
+    __add__ = __radd__ = __iadd__ = __sub__ = __rsub__ = __isub__ = _s
+    __mul__ = __rmul__ = __truediv__ = __rtruediv__ = __call__ = _s
+    __getitem__ = _s
+
+    def __getattr__(self, n):
+        if n.startswith("__"):
+            raise AttributeError(n)
+        return self
+
+    def __format__(self, spec):
+        return "<any>"
+
+    def __repr__(self):
+        return "<any>"
+
+    def __fspath__(self):
+        return "/tmp/pyvc-replay-any"
 
 
 class Stub:
@@ -205,6 +234,10 @@ class SpecRewriter(ast.NodeTransformer):
                                   ctx=ast.Load()),
                     args=[ast.GeneratorExp(elt=body, generators=gens)],
                     keywords=[])
+            if n == "implies":
+                a, b = self.visit(node.args[0]), self.visit(node.args[1])
+                return ast.BoolOp(op=ast.Or(), values=[
+                    ast.UnaryOp(op=ast.Not(), operand=a), b])
             if n == "let":
                 name = node.args[0].id
                 val = self.visit(node.args[1])
@@ -214,6 +247,18 @@ class SpecRewriter(ast.NodeTransformer):
                     kw_defaults=[], defaults=[]), body=body)
                 return ast.Call(func=lam, args=[val], keywords=[])
         return self.generic_visit(node)
+
+    def visit_Compare(self, node):
+        node = self.generic_visit(node)
+        if len(node.ops) == 1 and isinstance(node.ops[0], (ast.Eq,
+                                                            ast.NotEq)):
+            call = ast.Call(func=ast.Name(id="_veq", ctx=ast.Load()),
+                            args=[node.left, node.comparators[0]],
+                            keywords=[])
+            if isinstance(node.ops[0], ast.NotEq):
+                return ast.UnaryOp(op=ast.Not(), operand=call)
+            return call
+        return node
 
     def visit_Name(self, node):
         if self.in_old and node.id in self.roots:
@@ -261,8 +306,16 @@ def strictly_increasing(s):
     return all(s[i] < s[i + 1] for i in range(len(s) - 1))
 
 
+def _veq(a, b):
+    if a is None or b is None:
+        return a is None and b is None
+    if isinstance(a, (np.void,)) or isinstance(b, (np.void,)):
+        return row_eq(a, b)
+    return _eq(a, b)
+
+
 SPEC_NS = {
-    "row_eq": row_eq,
+    "row_eq": row_eq, "_veq": _veq,
     "sorted_by": lambda arr, f: is_sorted(_col(arr, f)),
     "is_sorted": is_sorted,
     "strictly_increasing": strictly_increasing,
@@ -376,19 +429,32 @@ def main():
             return 0
     old = {k: deep(v) for k, v in env.items()}
     args = dict(env)
+    final_locals = {}
+    code = getattr(target, "__code__", None)
+
+    def prof(frame, event, arg):
+        if event == "return" and frame.f_code is code:
+            final_locals.clear()
+            final_locals.update(frame.f_locals)
+    extra_ns = {"final": lambda n: final_locals[n],
+                "ghost": lambda n: GHOSTS[n]}
     print("replaying", con.func, "with",
           {k: (v if not hasattr(v, "__dict__") else
                {a: x for a, x in v.__dict__.items()
                 if not a.startswith("_")})
            for k, v in args.items()})
     try:
-        if "self" in args:
-            s = args.pop("self")
-            result = target(s, **args)
-        else:
-            result = target(**args)
-        if con.generator:
-            result = next(result)
+        sys.setprofile(prof)
+        try:
+            if "self" in args:
+                s = args.pop("self")
+                result = target(s, **args)
+            else:
+                result = target(**args)
+            if con.generator:
+                result = next(result)
+        finally:
+            sys.setprofile(None)
     except HarnessLimit as ex:
         print(f"replay harness limit: {ex}")
         return 3
@@ -414,7 +480,7 @@ def main():
     failed = []
     for j, e in enumerate(con.ensures):
         try:
-            ok = eval_spec(e, env, old, result)
+            ok = eval_spec(e, env, old, result, extra_ns)
         except Exception as ex:
             print(f"ensures[{j}] not evaluable at run time: {ex!r}")
             continue
@@ -490,10 +556,17 @@ def install_stubs(env, con, calls):
                         o.__dict__[pp[-1]] = build(ty, v)
                 r = build(__ccon.returns, c["result"]) \
                     if __ccon.returns else None
+                for g, callees in con.extra.get("bind_call_results",
+                                                {}).items():
+                    if __ccon.func in callees:
+                        GHOSTS[g] = r
                 if __ccon.generator:
                     return iter([r])
                 return r
             tgt.__dict__[name] = stub
+
+
+GHOSTS = {}
 
 
 class HarnessLimit(Exception):
